@@ -339,6 +339,10 @@ func (r *Recorder) FailNow(c interface{}, msg string) int {
 	return len(r.violations)
 }
 
+// FlushFail records the pending failing case (see Fail) as a violation at once,
+// without waiting for a shrunk version of it.
+func (r *Recorder) FlushFail() { r.flushFail() }
+
 // ViolationWithFile records a violation whose replay file already exists.
 func (r *Recorder) ViolationWithFile(path, msg string) {
 	r.mu.Lock()
